@@ -372,6 +372,8 @@ def run(ctx):
                 r.fail(m, pc, norm(pc) + " value unused", "%s scans a token and does not append it" % m.short)
     if r.n == 0:
         r.fail(methods.get("_parse") or list(methods.values())[0], (methods.get("_parse") or list(methods.values())[0]).node, "no list-building loop", "no token-list building loop found in the scanner")
+    ctx.borrow("c05", "C05-R2", "C08-R6", "'a command string and the equivalent argv list are indistinguishable' also the second time the same list is wrapped: the argv "
+               "wrapper (like every consumer of raw arguments) works on a copy and never pops from the caller's list")
     return ctx.results
 
 
